@@ -511,7 +511,7 @@ class C16(Prop):
         'unconditional clauses',
         'presence of Content-Range on a 416 is not required (SHOULD), its value is checked when present',
     )
-    budget = {'quick': (900, 4), 'thorough': (25000, 16)}
+    budget = {'quick': (900, 4), 'thorough': (15000, 16)}
 
     # ------------------------------------------------------------------ process set-up
     def setup(self):
@@ -568,24 +568,20 @@ class C16(Prop):
                 for segs in level:
                     out.append({'mode': mode, 'segs': segs, 'listing': True})
                 level = [segs + [c] for segs in level for c in core]
+        # Range headers: (value set, number of specs, units)
         if tier == 'quick':
-            plan = [('full', 2, ['bytes', 'items']), ('small', 3, ['bytes'])]
+            plan = [('full', 1, ['bytes', 'items', 'Bytes']), ('full', 2, ['bytes']), ('small', 3, ['bytes'])]
         else:
-            plan = [('full', 2, ['bytes', 'items', 'Bytes']), ('mid', 3, ['bytes'])]
+            plan = [('full', 1, ['bytes', 'items', 'Bytes']), ('full', 2, ['bytes', 'items']), ('mid', 3, ['bytes'])]
         for fname, size in SIZES.items():
             for level, n, units in plan:
                 specs = _enum_specs(size, level)
+                combos = [[]]
+                for _ in range(n):
+                    combos = [c + [x] for c in combos for x in specs]
                 for unit in units:
-                    if n == 2:
-                        for a in specs:
-                            out.append({'segs': [fname], 'range': '%s=%s' % (unit, a)})
-                            for b in specs:
-                                out.append({'segs': [fname], 'range': '%s=%s,%s' % (unit, a, b)})
-                    else:
-                        for a in specs:
-                            for b in specs:
-                                for c in specs:
-                                    out.append({'segs': [fname], 'range': '%s=%s,%s,%s' % (unit, a, b, c)})
+                    for c in combos:
+                        out.append({'segs': [fname], 'range': '%s=%s' % (unit, ','.join(c))})
         return out
 
     # ------------------------------------------------------------------ execution
@@ -640,7 +636,6 @@ class C16(Prop):
         lay = _ST['layouts'][spec.get('layout', 0) % len(_ST['layouts'])]
         path, mount = build_path(spec, lay)
         rng = spec.get('range')
-        proto = spec.get('proto', '1.1')
         mode = spec.get('mode', 'http')
         segs = spec.get('segs', [])
         handled, rels, escapes = denote(path, mount, lay)
@@ -771,7 +766,7 @@ class C16(Prop):
                 verdicts.append((clause, msg))
             return bad(*verdicts[0])
         if 300 <= stc < 500:
-            if must_serve:
+            if must_serve and not (stc < 400 and rels[0] in lay['dirs']):   # a directory may be redirected (to 'dir/')
                 return bad('not-served', 'plain canonical path of an existing file/directory answered %d' % stc)
             return Result(True, nontrivial=nontrivial, classes=classes)
         return bad('unexpected-status', 'status %d' % stc)
